@@ -10,7 +10,7 @@ EXCLUDED = ["tests/t.py", "build/x.py", "node_modules/p/i.js", "src/test/t.py", 
             "src/tests/deep/t.java", "lib/build/b.c"]
 UNSUPPORTED = ["notes.txt", "README", "Makefile", "a.PY", "a.py.bak", "data.json", "src/style.css", "lib/x.h.in"]
 ODD_SUPPORTED = ["SConstruct", "src/SConscript"]       # Pygments maps these names to Python
-WEIRD = ['we"ird.py', "back\\slash.py", "café.py", "sp ace.js", "src/qu'ote.ts", "tab\there.c"]
+WEIRD = ['we"ird.py', "back\\slash.py", "café.py", "sp ace.js", "src/qu'ote.ts"]
 DISTRACTOR_DIRS = ["src", "lib", "pkg", "x/y"]
 
 GOOD_SHAPES = ("one2", "one15", "one16", "one30", "one31", "one60", "one61", "one75", "multi", "multi2",
